@@ -133,7 +133,8 @@ let read_only = function Fetch _ | Exists _ | Resolve _ | Preds _ | Tags -> true
 (* [constrained o]: the observed output of this concurrent operation must be the one the
    sequential model gives at its place in the order (operations whose result is decided at
    one atomic step: everything but Predecessors on the memory store, Push on the file
-   store, Exists/Fetch on the OCI store).  Unconstrained read-only operations are dropped from the search. *)
+   store; reads of monotone or atomically updated maps -- Fetch/Exists/Resolve on the file store,
+   Exists/Fetch/Resolve-by-name on the OCI store: the theorems C06_reads_linearisable_memory, _oci, _file).  Unconstrained read-only operations are dropped from the search. *)
 let serialisable (type s) ?(constrained : op -> bool = fun _ -> false)
     (step : s -> op -> s * string) (init : s) (repr : s -> string)
     (evs : ev array) (probe : ev list) : bool =
@@ -202,7 +203,7 @@ let () =
          let evs = Array.of_list conc in
          let ok =
            if is_file store then
-             serialisable ~constrained:(function Push _ -> true | _ -> false) (fun s o -> let (s', x) = file_stepper store s o in (s', show_fout x)) file_init
+             serialisable ~constrained:(function Push _ | Fetch _ | Exists _ | Resolve _ -> true | _ -> false) (fun s o -> let (s', x) = file_stepper store s o in (s', show_fout x)) file_init
                (fun s -> String.concat "," (List.map (fun n -> string_of_int (ii n)) (List.sort compare s.f_names)) ^ "#" ^
                          String.concat "," (List.sort compare (List.map (fun (g, p) -> Printf.sprintf "%d>%d" (ii g) (ii p)) s.f_d2p)) ^ "#" ^
                          show_content_mem s.f_cas ^ "#" ^ show_tags s.f_res.r_index ^ "#" ^ show_graph s.f_graph ^ "#" ^
@@ -217,7 +218,7 @@ let () =
            | "oci" ->
              (* content-map reads are atomic (stat/open of a blob file that appears by rename and
                 disappears only under the exclusive lock): C06_reads_linearisable_oci *)
-             serialisable ~constrained:(function Exists _ | Fetch _ -> true | _ -> false)
+             serialisable ~constrained:(function Exists _ | Fetch _ | Resolve (RName _) -> true | _ -> false)
                (fun s o -> let (s', x) = oci_step s o in (s', show_out x)) oci_init
                (fun s -> let a = oci_abs s in show_content_oci a.sp_content ^ "#" ^ show_tags a.sp_tags ^ "#" ^ show_graph s.o_graph) evs probe
            | _ -> failwith "store" in
